@@ -42,7 +42,7 @@ func c13New(p *c13Params) *c13Sys {
 			panic(err)
 		}
 		kv := simcluster.WrapDMap("", dm)
-		for i := 0; i < 12; i++ {
+		for i := 0; i < 48; i++ { // enough keys for every partition (primary and backup copies) to hold data
 			kv.Put(fmt.Sprintf("key-%d", i), []byte("v"), simcluster.PutOpt{})
 		}
 	}
@@ -362,11 +362,13 @@ func c13Specs(tier string) []*clustermc.Spec {
 		p     uint64
 		data  bool
 	}
-	cfs := []cf{{1, 1, 7, false}, {2, 2, 7, false}, {3, 3, 13, false}, {2, 2, 7, true}}
+	// stored data is a dimension of its own for EVERY replica count: owners that still hold data
+	// stay listed, which is where the pruning / re-ordering logic of the distribution code lives
+	cfs := []cf{{1, 1, 7, false}, {2, 2, 7, false}, {3, 3, 13, false}, {2, 2, 7, true}, {2, 3, 7, true}, {3, 3, 7, true}}
 	depth, maxM := 3, 4
 	if !quick {
 		depth, maxM = 4, 5
-		cfs = append(cfs, cf{3, 2, 13, true}, cf{1, 3, 7, false}, cf{2, 1, 13, true})
+		cfs = append(cfs, cf{3, 2, 13, true}, cf{1, 3, 7, false}, cf{2, 1, 13, true}, cf{1, 3, 13, true}, cf{3, 3, 13, true})
 	}
 	var out []*clustermc.Spec
 	for _, c := range cfs {
